@@ -153,6 +153,15 @@ def run_server(kconfig, sdkconfig, sdkconfig_rename, default_version=MAX_PROTOCO
             sys.stdout.write("\n")
             sys.stdout.flush()
             continue
+        if not isinstance(req, dict):
+            response = {
+                "version": default_version,
+                "error": ["Request must be a JSON object"],
+            }
+            json.dump(response, sys.stdout)
+            sys.stdout.write("\n")
+            sys.stdout.flush()
+            continue
         before = kconfgen.get_json_values(config)
         before_ranges = get_ranges(config)
         before_visible = get_visible(config)
@@ -162,7 +171,16 @@ def run_server(kconfig, sdkconfig, sdkconfig_rename, default_version=MAX_PROTOCO
                 "version": default_version,
             }
             error = ["All requests must have a 'version'"]
+        elif type(req["version"]) is not int:
+            response = {
+                "version": default_version,
+            }
+            error = ["Request 'version' must be an integer"]
         else:
+            # Parts of the request which cannot be processed at all are reported and dropped;
+            # the rest of the request is handled as if they had not been sent.
+            part_errors = drop_invalid_parts(req)
+
             if req["version"] >= 3:
                 before_defaults = get_sym_default_value_dict(config)
 
@@ -186,7 +204,7 @@ def run_server(kconfig, sdkconfig, sdkconfig_rename, default_version=MAX_PROTOCO
                 else:
                     sdkconfig = req["save"]
 
-            error = handle_request(config, req)
+            error = part_errors + handle_request(config, req)
 
             after = kconfgen.get_json_values(config)
             after_ranges = get_ranges(config)
@@ -238,6 +256,25 @@ def get_sym_default_value_dict(config: kconfiglib.Kconfig) -> Dict[str, bool]:
     for sym in config.unique_defined_syms:
         defaults[sym.name] = sym.has_active_default_value()
     return defaults
+
+
+def drop_invalid_parts(req: dict) -> List[str]:
+    """
+    Remove the parts of a request whose JSON type cannot be processed and
+    return an error message for each of them.
+    """
+    error = []
+    for key in ("load", "save"):
+        if key in req and req[key] is not None and not isinstance(req[key], str):
+            error.append(f"'{key}' must be a file name or null")
+            del req[key]
+    if "set" in req and not isinstance(req["set"], dict):
+        error.append("'set' must be a dictionary of config symbol names and their new values")
+        del req["set"]
+    if "reset" in req and not (isinstance(req["reset"], list) and all(isinstance(name, str) for name in req["reset"])):
+        error.append("'reset' must be a list of config symbol names and menu IDs")
+        del req["reset"]
+    return error
 
 
 def handle_request(config, req):
@@ -345,6 +382,10 @@ def handle_set(config, error, to_set):
         if not set_pass:
             break  # no visible keys left
         for sym, val in set_pass:
+            if val is None or isinstance(val, (list, dict)) or (isinstance(val, bool) and sym.type != kconfiglib.BOOL):
+                error.append(f"Symbol {sym.name} does not accept a value of JSON type {type(val).__name__}")
+                del to_set[sym]
+                continue
             if sym.type == kconfiglib.BOOL:
                 if val is True:
                     sym.set_value(2)
@@ -357,7 +398,7 @@ def handle_set(config, error, to_set):
                     if not isinstance(val, int):
                         val = int(val, 16)  # input can be a decimal JSON value or a string of hex digits
                     sym.set_value(hex(val))
-                except ValueError:
+                except (ValueError, TypeError):
                     error.append(f"Hex symbol {sym.name} can accept a decimal integer or a string of hex digits, only")
             elif sym.type == kconfiglib.FLOAT:
                 if not kconfiglib.is_float(str(val)):
